@@ -74,9 +74,9 @@ def shrink(binary, res):
 def main(argv):
     rep = vlib.Report(PROP, 'proof')
     rep.checker_cmd = ('make -C coq props/C06.vo && coqc props/C06.v (Print Assumptions) && build/bin/c06 (monitors i, ii, scalar) '
-                       '&& coqc cases/C06/s*.v (vm_compute mismatches)')
+                       '&& coqc cases/C06_<pid>/s*.v (vm_compute mismatches)')
     rep.trusted = ['Coq 8.16.1 kernel + vm_compute',
-                   'hand transcriptions coq/isa/LanesCorr.v (17 integer ALU handlers, all FLAT and DS handlers) and coq/isa/ExecImplV.v (C03 builder, ~75 integer vector rows per ALU), checked by sampling, not verified',
+                   'hand transcriptions coq/isa/LanesCorr.v (integer ALU handlers, f32 compares / class / min-max / int->float conversions on bit patterns, all FLAT and DS handlers) and coq/isa/ExecImplV.v (C03 builder, ~75 integer vector rows per ALU), checked by sampling, not verified',
                    'the claim that every other handler has the loop shape of Lanes.seq_loop rests on monitors (i)/(ii) run on the real code',
                    'Go harness harness/cmd/c06 (recording InstEmuState over the repository\'s emu.Wavefront, logging StorageAccessor, instruction encoders)',
                    'insts.Disassembler.Decode builds the instruction values the handlers are run on']
@@ -92,6 +92,28 @@ def main(argv):
     if not ok:
         rep.violation({'broken': 'go build of harness/cmd/c06 failed', 'log': log[-4000:]}, nofail=True, text='harness build failed')
         return rep.finish()
+
+    # ---- the registration table coq/isa/LanesTable.v is generated from the handlers found in the real ALUs
+    tpath = os.path.join(vlib.ROOT, 'coq', 'isa', 'LanesTable.v')
+    ttmp = os.path.join(vlib.BUILD, 'c06_table_%d.v' % os.getpid())
+    rc, tlog = vlib.run([binary, '--table', '--out', ttmp], timeout=300)
+    table_txt = open(ttmp).read() if rc == 0 and os.path.exists(ttmp) else ''
+    if os.path.exists(ttmp):
+        os.remove(ttmp)
+    cur = open(tpath).read() if os.path.exists(tpath) else ''
+    table_ok = rc == 0 and table_txt.strip() == cur.strip()
+    rep.obligation('coq/isa/LanesTable.v (the table of handler_table_lane_independent) is what the harness generates from the handlers '
+                   'of the working tree', table_ok)
+    if not table_ok:
+        rep.violation({'broken': 'coq/isa/LanesTable.v differs from the output of `build/bin/c06 --table`: a tabulated handler no longer '
+                                 'exists in the ALUs, or the table was edited by hand; theorem handler_table_lane_independent no longer '
+                                 'speaks about the handlers of this tree', 'log': tlog[-1500:] if rc != 0 else ''}, nofail=True,
+                      text='registration table out of date (regenerate with build/bin/c06 --table > coq/isa/LanesTable.v)')
+        return rep.finish()
+    import re
+    tab = re.findall(r'\(\* (\S+) (\S+) \*\) mkT (true|false) IsaState\.F_(\w+) (\d+) \(fun (?:_ _|ab ng) => (.*)\);?$', cur, re.M)
+    tab_keys = {'%s/%s/%s' % (a, f.lower(), op) for a, _, _, f, op, _ in tab}
+    tab_own = {'%s/%s/%s' % (a, f.lower(), op) for a, _, _, f, op, t in tab if not t.startswith('H_v ')}
 
     ok, log = vlib.coq_build(COQ_TARGETS)
     okp, plog, thms = vlib.coq_check_props(PROP) if ok else (False, log, [])
@@ -137,8 +159,13 @@ def main(argv):
         handlers, crashes, samples, distinct = out['handlers'], out['crash_samples'] or [], out['samples'] or [], out['distinct_nontrivial']
 
     # ---- correspondence with the Coq combinator
-    okc, mism, clog = vlib.eval_cases(PROP, HEADER, [c['coq'] for c in coq_cases], shard_size=max(4, len(coq_cases) // 16 + 1),
+    # own shard directory per run: concurrent runs of this check (seeded runs, other worktrees) must not share coq/cases/C06
+    cdir_name = '%s_%d' % (PROP, os.getpid())
+    okc, mism, clog = vlib.eval_cases(cdir_name, HEADER, [c['coq'] for c in coq_cases], shard_size=max(4, len(coq_cases) // 16 + 1),
                                       ty='icase') if coq_cases else (True, [], '')
+    if okc and not mism:
+        import shutil
+        shutil.rmtree(os.path.join(vlib.COQ, 'cases', cdir_name), ignore_errors=True)
     unmodelled = sorted({coq_cases[i]['spec']['corr'] for i, k in mism if k == 99})
     mism = [(i, k) for i, k in mism if k != 99]
     own = [c for c in coq_cases if not c['spec']['corr'].startswith('H_v ')]
@@ -163,6 +190,14 @@ def main(argv):
         'handlers_under_i_trace_discipline': sum(1 for h in vec if h['discipline_checked'] > 0),
         'handlers_under_ii_metamorphic': sum(1 for h in vec if h['metamorphic_checked'] > 0),
         'handlers_under_iii_correspondence': len({key(c['spec']) for c in coq_cases}),
+        'vector_handlers_transcribed': len(tab_keys), 'vector_handlers_total': len(vec),
+        'vector_handlers_transcribed_of_total': '%d/%d' % (len(tab_keys), len(vec)),
+        'vector_handlers_with_own_transcription_in_LanesCorr': len(tab_own),
+        'vector_handlers_only_through_ExecImplV_rows': len(tab_keys - tab_own),
+        'handler_table_entries': len(tab),
+        'tabulated_handlers_without_a_replayed_case_this_run': sorted(tab_keys - {key(c['spec']) for c in coq_cases}) if not replay_file else [],
+        'vector_handlers_not_transcribed': sorted('%s/%s/%d %s' % (h['alu'], h['fmt'], h['opcode'], h['name']) for h in vec
+                                                  if '%s/%s/%d' % (h['alu'], h['fmt'], h['opcode']) not in tab_keys),
         'scalar_handlers_exec_independence_checked': sum(1 for h in sca if h['discipline_checked'] > 0),
         'cases_i': sum(h['discipline_checked'] for h in vec), 'cases_ii': sum(h['metamorphic_checked'] for h in vec),
         'cases_iii': len(coq_cases), 'rows_missing_in_ExecImplV': unmodelled,
